@@ -1,0 +1,80 @@
+//go:build verif
+
+package cla
+
+import (
+	"sync"
+	"sync/atomic"
+	"time"
+
+	"github.com/dtn7/dtn7-go/pkg/bpv7"
+)
+
+// NewManagerVerif is NewManager with a configurable retry budget and retry interval.
+func NewManagerVerif(queueTtl int32, retry time.Duration) *Manager {
+	manager := &Manager{
+		queueTtl:  queueTtl,
+		retryTime: retry,
+
+		convs: new(sync.Map),
+
+		listenerIDs: make(map[CLAType][]bpv7.EndpointID),
+
+		inChnl:  make(chan ConvergenceStatus, 100),
+		outChnl: make(chan ConvergenceStatus),
+
+		stopSyn: make(chan struct{}),
+		stopAck: make(chan struct{}),
+
+		stopFlag: false,
+	}
+
+	go manager.handler()
+
+	return manager
+}
+
+// VerifElem is a snapshot of one registry entry.
+type VerifElem struct {
+	Address string
+	Conv    Convergence
+	Ttl     int32
+	// HasStop tells whether the element's stop channel exists (it is created by a successful
+	// start only; closing a nil channel panics).
+	HasStop bool
+}
+
+// VerifDump returns a snapshot of the registry (address -> element).
+func (manager *Manager) VerifDump() (es []VerifElem) {
+	manager.convs.Range(func(key, convElem interface{}) bool {
+		ce := convElem.(*convergenceElem)
+		ce.mutex.Lock()
+		es = append(es, VerifElem{
+			Address: key.(string),
+			Conv:    ce.conv,
+			Ttl:     atomic.LoadInt32(&ce.ttl),
+			HasStop: ce.stopSyn != nil,
+		})
+		ce.mutex.Unlock()
+		return true
+	})
+	return
+}
+
+// VerifRetryPass runs one retry pass synchronously in the caller's goroutine. It is a verbatim
+// copy of the `case <-activateTicker.C` branch of Manager.handler (minus logging); the shape of
+// the original is tied to the model by tools/goconsts (funcs.d/clamgr.txt), and the harness also
+// runs scenarios on the real ticker.
+func (manager *Manager) VerifRetryPass() {
+	manager.convs.Range(func(key, convElem interface{}) bool {
+		ce := convElem.(*convergenceElem)
+		if ce.isActive() {
+			return true
+		}
+
+		if successful, retry := ce.activate(); !successful && !retry {
+			manager.convs.Delete(key)
+		}
+		return true
+	})
+}
